@@ -14,6 +14,7 @@ OPS = {
     "padding": {"spec_only": True}, "panel": {"spec_only": True}, "align": {"spec_only": True},
     "constrain": {"spec_only": True}, "styled": {"spec_only": True}, "tree": {"spec_only": True},
     "rule": {}, "bar": {}, "pbar": {}, "columns": {"res": True}, "columns_render": {"spec_only": True},
+    "columns_twice": {"spec_only": True}, "columns_alias": {"spec_only": True}, "container_twice": {"spec_only": True},
 }
 
 ASCII = "abcXYZ 09-_"
@@ -29,13 +30,61 @@ ZW_OK = [True]      # generator may put zero-width characters into titles (exerc
 # ---------------------------------------------------------------- generators
 def rtext(rng, maxlen=12, nl=True, zero=False, spaces=True):
     n = rng.choice([0, 1, 2, 3, 5, 8, maxlen])
-    pool = rng.choice([ASCII, ASCII, ASCII, WIDE, ASCII + WIDE])
+    pool = rng.choice([ASCII, ASCII, ASCII, WIDE, ASCII + WIDE, None])
+    if pool is None:       # range-boundary code points of the width table of the tree under check
+        wide, zz = width_edges()
+        pool = ASCII[:6] + "".join(rng.sample(wide, min(4, len(wide)))) + \
+            ("".join(rng.sample(zz, min(2, len(zz)))) if zero else "")
     if zero and rng.random() < 0.5:
         pool = pool + ZERO
     if not spaces:
         pool = pool.replace(" ", "")
     s = "".join(rng.choice(pool) for _ in range(n))
     if nl and s and rng.random() < 0.4:
+        k = rng.randint(0, len(s))
+        s = s[:k] + "\n" + s[k:]
+    return s
+
+
+_EDGES = [None]
+
+
+def width_edges():
+    """first / last code points of the ranges of rich/_cell_widths.py, read with ast from the tree under check:
+    (width-2 characters, width-0 characters); whitespace, controls and surrogates left out"""
+    if _EDGES[0] is None:
+        import ast, os
+        import common
+        wide, zero = [], []
+        try:
+            with open(os.path.join(common.REPO, "rich", "_cell_widths.py"), encoding="utf-8") as f:
+                tree = ast.parse(f.read())
+            rows = []
+            for node in tree.body:
+                if isinstance(node, ast.Assign) and any(getattr(t, "id", None) == "CELL_WIDTHS" for t in node.targets):
+                    rows = [tuple(r) for r in ast.literal_eval(node.value)]
+            for (a, b, w) in sorted(rows):
+                for cp in {a, b}:
+                    if cp < 0x300 or 0xD800 <= cp <= 0xDFFF or cp > 0x10FFFF:
+                        continue
+                    ch = chr(cp)
+                    if ch.isspace() or ch in "\x08\x0b\x0c\r\x1c\x1d\x1e\x85\u2028\u2029":
+                        continue
+                    (wide if w == 2 else zero if w in (0, -1) else []).append(ch)
+        except Exception:
+            pass
+        _EDGES[0] = (wide or list(WIDE), zero or list(ZERO))
+    return _EDGES[0]
+
+
+def rlong(rng):
+    """a long unbreakable run mixing double-width and narrow characters (incl. width-table boundaries), so that a
+    frame has to crop it and the crop point falls inside / next to wide characters"""
+    wide, zero = width_edges()
+    pool = WIDE + "".join(rng.sample(wide, min(6, len(wide)))) + rng.choice(["", "", "ab", "x"])
+    n = rng.choice([6, 10, 20, 40])
+    s = "".join(rng.choice(pool) for _ in range(n))
+    if rng.random() < 0.3:
         k = rng.randint(0, len(s))
         s = s[:k] + "\n" + s[k:]
     return s
@@ -57,6 +106,8 @@ def rstyle(rng):
 def rchild(rng, depth=0):
     """child descriptor (nested int lists)"""
     k = rng.random()
+    if k < 0.12:
+        return [6, s2t(rlong(rng))]
     if depth >= 2 or k < 0.55:
         return [0, s2t(rtext(rng, rng.choice([4, 12, 30]), zero=rng.random() < 0.2))]
     if k < 0.65:
@@ -160,6 +211,21 @@ def generate(rng, tier):
         width = [] if rng.random() < 0.8 or W < 8 + max(pl, pr) else [rng.randint(8, min(20, W - max(pl, pr)))]
         cases.append(("columns_render", [labels, width, pl, pr, rng.randint(0, 1),
                                          rng.randint(0, 1), rng.randint(0, 1), rng.randrange(4), rng.randint(0, 1), W]))
+    # ---- the SAME object rendered twice; content given as list / tuple / generator / iter / map; aliasing
+    for _ in range(120 * k):
+        n = rng.choice([1, 2, 3, 5, 8, rng.randint(1, 20)])
+        labels = [s2t("i%d%s" % (i, "x" * rng.randint(0, 4))) for i in range(n)]
+        W = rng.randint(10, 100)
+        cases.append(("columns_twice", [labels, rng.randrange(5), rng.randint(0, 2), rng.randint(0, 2), rng.randint(0, 1),
+                                        rng.randint(0, 1), rng.randint(0, 1), rng.randint(0, 1), W]))
+    for _ in range(60 * k):
+        n = rng.choice([1, 2, 3, 5, 8])
+        labels = [s2t("i%d" % i) for i in range(n)]
+        cases.append(("columns_alias", [labels, rng.randint(1, 3), rng.randint(0, 1), rng.randint(0, 1), rng.randint(10, 80)]))
+    for _ in range(120 * k):
+        n = rng.choice([1, 2, 3, 5, rng.randint(1, 9)])
+        labels = [s2t("i%d%s" % (i, "x" * rng.randint(0, 4))) for i in range(n)]
+        cases.append(("container_twice", [labels, rng.randrange(1, 4), rng.randrange(5), rng.randint(0, 1), rng.randint(24, 90)]))
     # ---- trees
     for _ in range(350 * k):
         def node(d):
@@ -275,6 +341,8 @@ def build_child(d):
         return t
     if k == 5:
         return Rule(Text(t2s(d[1])), align=ALIGN[d[2]])
+    if k == 6:
+        return Text(t2s(d[1]), no_wrap=True, overflow="ignore")
     raise KeyError(k)
 
 
@@ -295,6 +363,26 @@ def lines_of(con, fr, opts):
     return list(Segment.split_lines(con.render(fr, opts)))
 
 
+class RenderedTwiceDiffers(Exception):
+    pass
+
+
+def lines_twice(con, fr, opts):
+    """render the SAME object twice, measuring in between (as Live does); the second rendering is returned and
+    must equal the first -- a frame object that exhausts or mutates its content shows up here"""
+    from rich.measure import Measurement
+    first = lines_of(con, fr, opts)
+    try:
+        Measurement.get(con, fr, opts.max_width)
+    except Exception:
+        pass
+    second = lines_of(con, fr, opts)
+    if [[(g.text, g.style, g.is_control) for g in l] for l in first] != \
+            [[(g.text, g.style, g.is_control) for g in l] for l in second]:
+        raise RenderedTwiceDiffers("second rendering of the same object differs from the first")
+    return second
+
+
 def child_alone(con, opts, child, inner, style=None, pad=False):
     """the child rendered alone at the inner width"""
     return con.render_lines(child, opts.update(width=inner), style=style, pad=pad)
@@ -310,7 +398,7 @@ def impl(op, arg):
         px = Proxy(build_child(cd))
         style = _style(st)
         fr = Padding(px, tuple(pad), style=style, expand=bool(expand))
-        lines = lines_of(con, fr, opts)
+        lines = lines_twice(con, fr, opts)
         t, r, b, l = unpack(pad)
         wd = Segment.get_shape(lines)[0]
         inner = (W if expand else wd) - l - r
@@ -329,7 +417,7 @@ def impl(op, arg):
         fr = Panel(px, getattr(rbox, BOX_NAMES[bx[0]]), title=Text(t2s(title)) if title else None,
                    title_align=ALIGN[talign], expand=bool(expand), width=width[0] if width else None,
                    padding=tuple(pad), style=style, border_style=_style(bst))
-        lines = lines_of(con, fr, opts)
+        lines = lines_twice(con, fr, opts)
         t, r, b, l = unpack(pad)
         border = _tok(style + _style(bst))
         wd = Segment.get_shape(lines)[0]
@@ -358,7 +446,7 @@ def impl(op, arg):
         px = Proxy(build_child(cd))
         style = _style(st[0]) if st else None
         fr = Align(px, ALIGN[how], style=style, pad=bool(pad), width=width[0] if width else None)
-        lines = lines_of(con, fr, opts)
+        lines = lines_twice(con, fr, opts)
         # documented: the child rendered at min(its maximum, width, available), as a block
         mx = Measurement.get(con, px.inner).maximum
         inner = min(mx, width[0], W) if width else min(mx, W)
@@ -429,6 +517,65 @@ def impl(op, arg):
         for ln in lines:
             seen.append([int(m.group(1)) for m in re.finditer(r"i(\d+)x*", ln)])
         return [len(labels), cc, grid, seen]
+    if op == "columns_twice":
+        labels, src, pl, pr, equal, cf, rtl, measure, W = arg
+        from rich.columns import Columns
+        from rich.text import Text
+        items = [Text(t2s(x)) for x in labels]
+        con, opts = console_opts(W)
+        fr = Columns(_source(items, src), (0, pr, 0, pl), equal=bool(equal), column_first=bool(cf), right_to_left=bool(rtl))
+        l1 = [_text(l) for l in lines_of(con, fr, opts)]
+        cc1, g1 = _grid_of_columns(fr, items, con, opts)
+        if measure:
+            Measurement.get(con, fr, W)
+        l2 = [_text(l) for l in lines_of(con, fr, opts)]
+        cc2, g2 = _grid_of_columns(fr, items, con, opts)
+        return [len(items), cc1, g1, cc2, g2, [s2t(x) for x in l1], [s2t(x) for x in l2]]
+    if op == "columns_alias":
+        labels, extra, cf, rtl, W = arg
+        from rich.columns import Columns
+        from rich.text import Text
+        items = [Text(t2s(x)) for x in labels]
+        shared = list(items)
+        con, opts = console_opts(W)
+        a = Columns(shared, column_first=bool(cf), right_to_left=bool(rtl))
+        b = Columns(shared, column_first=bool(cf), right_to_left=bool(rtl))
+        extras = [Text("e%d" % i) for i in range(extra)]
+        for x in extras:
+            a.add_renderable(x)
+        cca, ga = _grid_of_columns(a, items + extras, con, opts)
+        ccb, gb = _grid_of_columns(b, items + extras, con, opts)
+        return [len(items), extra, cca, ga, ccb, gb]
+    if op == "container_twice":
+        labels, kind, src, measure, W = arg
+        import re
+        from rich.text import Text
+        items = [Text(t2s(x)) for x in labels]
+        con, opts = console_opts(W)
+        if kind == 1:
+            from rich.console import RenderGroup
+            fr = RenderGroup(*_source(items, src))
+        elif kind == 2:
+            from rich.tree import Tree
+            fr = Tree(Text("root"))
+            for x in _source(items, src):
+                fr.add(x)
+        else:
+            from rich.panel import Panel
+            from rich.table import Table
+            tb = Table(show_header=False)
+            tb.add_column()
+            for x in _source(items, src):
+                tb.add_row(x)
+            fr = Panel(tb)
+        l1 = [_text(l) for l in lines_of(con, fr, opts)]
+        if measure:
+            Measurement.get(con, fr, W)
+        l2 = [_text(l) for l in lines_of(con, fr, opts)]
+
+        def seen(ls):
+            return [[int(m.group(1))] for ln in ls for m in re.finditer(r"i(\d+)x*", ln)]
+        return [len(items), seen(l1), seen(l2), [s2t(x) for x in l1], [s2t(x) for x in l2]]
     if op == "tree":
         ascii_, legacy, W, t = arg
         from rich.tree import Tree
@@ -450,7 +597,7 @@ def impl(op, arg):
             kids = [mk(k, nd) for k in d[3]]
             return (px, d, kids, nd)
         root = mk(t, None)
-        lines = [_text(l) for l in lines_of(con, root[3], opts)]
+        lines = [_text(l) for l in lines_twice(con, root[3], opts)]
 
         def tab(n):
             px, d, kids, _ = n
@@ -466,6 +613,38 @@ def impl(op, arg):
             return out
         return [[ascii_, legacy, W, tab(root)], [s2t(l) for l in lines], pre(root, 0)]
     raise KeyError(op)
+
+
+def _source(items, src):
+    """the same items as a list / tuple / generator / iterator / map object"""
+    if src == 0:
+        return list(items)
+    if src == 1:
+        return tuple(items)
+    if src == 2:
+        return (x for x in items)
+    if src == 3:
+        return iter(items)
+    return map(lambda x: x, items)
+
+
+def _grid_of_columns(fr, items, con, opts):
+    """(column count, rows of item indices) of the table a Columns object builds NOW"""
+    from rich.align import Align
+    from rich.constrain import Constrain
+    out = list(fr.__rich_console__(con, opts))
+    if not out:
+        return 0, []
+    table = out[0]
+    index = {id(x): i for i, x in enumerate(items)}
+
+    def ident(cell):
+        while isinstance(cell, (Align, Constrain)):
+            cell = cell.renderable
+        if isinstance(cell, str) and cell == "":
+            return -1
+        return index.get(id(cell), 999)
+    return len(table.columns), [[ident(col._cells[r]) for col in table.columns] for r in range(len(table.rows))]
 
 
 class Fixed:
@@ -520,7 +699,8 @@ def model_case(op, arg):
 def spec_cases(op, arg, out):
     if isinstance(out, dict):
         # an exception where none is expected: let the corr op fail visibly
-        if op in ("padding", "panel", "align", "constrain", "styled", "tree", "columns_render"):
+        if op in ("padding", "panel", "align", "constrain", "styled", "tree", "columns_render", "columns_twice",
+                  "columns_alias", "container_twice"):
             return [("spec.frame_ok", [[], 0, 0, [], [], [], [], [[[120, []]]], []])]
         return []
     if op in ("padding", "panel", "align"):
@@ -545,6 +725,16 @@ def spec_cases(op, arg, out):
             return []
         cc, grid = out[1]
         return [("spec.columns_once", [arg[5], arg[6], len(arg[0]), cc, grid])]
+    if op == "columns_twice":
+        n, cc1, g1, cc2, g2, l1, l2 = out
+        return [("spec.columns_once", [arg[5], arg[6], n, cc1, g1]), ("spec.columns_once", [arg[5], arg[6], n, cc2, g2]),
+                ("spec.same_grid", [g1, g2]), ("spec.same_render", [l1, l2])]
+    if op == "columns_alias":
+        n, extra, cca, ga, ccb, gb = out
+        return [("spec.columns_once", [arg[2], arg[3], n + extra, cca, ga]), ("spec.columns_once", [arg[2], arg[3], n, ccb, gb])]
+    if op == "container_twice":
+        n, s1, s2, l1, l2 = out
+        return [("spec.columns_once", [0, 0, n, 1, s1]), ("spec.columns_once", [0, 0, n, 1, s2]), ("spec.same_render", [l1, l2])]
     if op == "columns_render":
         n, cc, grid, seen = out
         # the rendered lines, read as a grid of item numbers, must be the table and pass the checker
